@@ -240,3 +240,19 @@ def check(ctx, rep: Report):
     rep.oblige("C18.D", "DeprecatedAlias.__warn", ok)
     if not ok:
         rep.violate(Violation("C18.D", "C18.D|warn", "DeprecatedAlias.__warn no longer emits a warning", "", "DeprecatedAlias.__warn"))
+
+
+    # ---- COPY: the per-instance override lives in the instance __dict__; copies must carry it (shared with C02.DC)
+    rep.rules["C18.COPY"] = "__deepcopy__ drops no __dict__ entry (a local alias override survives copy-on-write helpers and deepcopy)"
+    from .c02 import dc_worker
+    r = pmap(dc_worker, [0])[0]
+    dropped = []
+    for row in r["rows"]:
+        d = row["dec"]
+        if row["kind"] == "ok" and not d.get("class_do_not_copy") and not row["stores"] \
+                and not (d.get("ismethod") and d.get("bound_to_self")) and any(k in d for k in ("attr_do_not_copy", "ismethod")):
+            dropped.append(str({k: v for k, v in d.items() if not isinstance(k, str) or "pred" in k or "truthy" in k or k in ("ismethod", "attr_do_not_copy")}))
+    rep.oblige("C18.COPY", "DeepCopyMethod.deepcopy", not dropped)
+    for dd in dropped[:1]:
+        rep.violate(Violation("C18.COPY", "C18.COPY|dropped", f"__deepcopy__ skips some instance __dict__ entries ({dd[:160]}): the alias override slot (`__spec_classes_Alias_<name>_override`) is lost by with_*/deepcopy and the alias silently reverts to mirroring its target",
+                              "", "DeepCopyMethod.deepcopy"))
